@@ -424,7 +424,8 @@ def rule_who(ctx, rep):
             pat.require(found, "%s: no writer of %s found" % (fl, g))
             extra = sorted(set(found) - allowed)
             required = set(k % F.pfx if "%s" in k else k for k in REQUIRED_WRITERS[g])
-            gone = sorted(required - set(found))
+            present = set(x for f_ in m.defined() for i in f_.all_insts() for x in i.scope_chain)
+            gone = sorted(x for x in required - set(found) if x not in present)     # vanished altogether (renamed), not merely "no longer writes"
             if extra and gone:
                 # a designated writer vanished and an unknown one appeared: most likely a rename / moved code, not a new writer
                 raise Broken("%s: writers of %s changed (%s gone, %s new): table needs re-confirmation" % (fl, g, gone, extra))
